@@ -34,7 +34,13 @@ def std_menu(ev, lane, ctx=None):
     computed from the parameters genjax actually passed to the sampler."""
     d = R.BY_EVENT_NAME.get(ev.name)
     if d is None:
-        raise KeyError(f"no menu for sampler {ev.name}")
+        # a sampler the reference does not know: keep its real draw as the only branch; the leaf
+        # oracle (check_events) then reports the unexpected site instead of the harness failing
+        v = np.asarray(ev.real)
+        nd = EVENT_NDIMS.get(ev.name or "", 0)
+        lane_shape = v.shape[: v.ndim - nd] if nd else v.shape
+        val = v.reshape((-1,) + v.shape[len(lane_shape):])[lane] if lane_shape else v
+        return [(val, 1.0, f"unknown sampler {ev.name}")]
     ps = lane_params(ev, lane)
     return [(v, p, repr(np.asarray(v).tolist())) for v, p in d.menu(*ps)]
 
